@@ -47,7 +47,7 @@ CHECKS = {
          "Trusted: ref colour tables written from the specification.",
          "4 C09"),
  "C10": ("online specification automaton stepped after every call; bounded-exhaustive histories over an abstract alphabet",
-         "Runtime monitoring: all call histories up to depth 6 (quick) / 7 (thorough) over an 11-letter alphabet of call classes, plus long random histories, are executed on real Encoders (zero-value and Reset) while a 4-state automaton predicts whether Bytes must fail; stickiness, decodability of accepted histories and zero-value equivalence are checked at every prefix.",
+         "Runtime monitoring: all call histories up to depth 6 (quick) / 8 (thorough) over an 11-letter alphabet of call classes, plus long random histories, are executed on real Encoders (zero-value and Reset) while a 4-state automaton predicts whether Bytes must fail; stickiness, decodability of accepted histories and zero-value equivalence are checked at every prefix.",
          "Trusted: the automaton (written from the property), the real decoder for the decodability part (itself covered by C03).",
          "4 C10"),
  "C11": ("listing parser vs decode trace: byte column, line count, every printed operand",
